@@ -14,7 +14,7 @@ from harness.loop_base import LoopCheck
 class C08(LoopCheck):
     pid = "C08"
     props = {"C08"}
-    flows = ("plain", "resume")
+    flows = ("plain", "resume", "twice")
     thorough_schedules = ["fixed1", "fixed2", "fixed4", "adaptive_half"]
     adaptive_N3 = ("adaptive_half",)
     required_labels = ["c08/step_ratio", "c08/step_variance", "c08/evidence_is_sum", "c08/error_is_root_sum_var", "c08/fp_ratio_mean_over_all"]
@@ -28,6 +28,9 @@ class C08(LoopCheck):
                 if c["n_final"] or c["schedule"] not in ("fixed2", "adaptive_half") or (tier == "quick" and c["schedule"] != "fixed2"):
                     continue
                 c["routes"] = ["bytes", "live_dict"]
+                c["resume_n_samples_delta"] = 1
+            if c["flow"] == "twice" and (c["n_final"] or c["schedule"] not in ("fixed2",)):
+                continue
             out.append(c)
         for n in ([2] if tier == "quick" else [2, 3]):
             out.append({"name": f"fp-ratio-N{n}", "kind": "fp_ratio", "flow": "fp_ratio", "N": n, "timeout_ms": 120000})
